@@ -15,10 +15,10 @@ T = {
  "C02": ("rapid PBT + native fuzz over message streams with bait commands and terminator look-alikes; callback-trace and exact reply-stream oracle",
          "Generated message streams containing bait command lines and every end-marker look-alike, crossed with backend read behaviour, verdict, size limit and SMTP/LMTP mode, in plaintext and under TLS, plus stalls past the read timeout and over-long message lines under a small line limit (there only 'nothing of the message is executed' is demanded); oracle: no bait ever reaches a callback, the marker command after the true end marker is executed exactly once and next, and the reply stream is exactly the predicted one.",
          "Markers/baits are recognised by unique addresses; reply stream parsed strictly; exploration.", "4/C02"),
- "C03": ("model-based PBT: generated command histories vs an explicit command-state monitor and callback-trace invariants",
+ "C03": ("model-based PBT (rapid; thorough also coverage-guided through rapid.MakeFuzz): generated command histories vs an explicit command-state monitor and callback-trace invariants",
          "Histories of up to 25 (quick) / 40 (thorough) abstract commands with scripted backend decisions, driven lock-step over memnet, in the clear, across STARTTLS or under implicit TLS (NewSession must see the state of a completed handshake); plain backend errors come in several Go shapes (Temporary, net.Error timeout, wrapped, io.EOF ...); the alphabet includes a STARTTLS whose handshake fails and multi-line backend errors, and a graceful Server.Shutdown may begin at any point of the history (the open connection stays served); a reference monitor (transition table in ref/monitor.go) predicts for each command refusal-without-callback or the exact callback, and trace invariants check Reset/Logout placement, recipient limits and the greeting data seen in NewSession.",
          "Monitor follows the observed reply where the specification leaves a choice (second MAIL, malformed BDAT during a transfer); the delivery goroutine's start is gated in half of the cases; exploration.", "4/C03, Appendix A"),
- "C04": ("metamorphic PBT (pipelined/segmented transcript == lock-step transcript) + strict RFC 5321/2034 reply grammar + gated chunked-transfer schedules with message-id verdict attribution",
+ "C04": ("metamorphic PBT (rapid; thorough also coverage-guided through rapid.MakeFuzz; pipelined/segmented transcript == lock-step transcript) + strict RFC 5321/2034 reply grammar + gated chunked-transfer schedules with message-id verdict attribution",
          "The C03 history generator crossed with sending disciplines (one segment, random segmentation, one segment per line or per octet, optionally with the client's half-close arriving together with the last octets); every server octet stream must parse under a strict reply grammar with enhanced codes of the right class, contain exactly the predicted number of replies, and be identical whether commands are sent one by one or pipelined in any segmentation, also with further input behind the command at which the server ends the connection; at a held command boundary (only the first octets of the next line sent) every complete command has been answered; schedules of gated BDAT deliveries check that each message's final reply reports that message's own verdict.",
          "Attribution of replies to commands comes from the lock-step run (server idle detection), not from parsing; exploration.", "4/C04"),
  "C05": ("rapid PBT + native fuzz over chunkings, refusal states and segmentations vs framing arithmetic",
